@@ -335,7 +335,7 @@ PROPS = {
         "explanation": "C14.* theorems; ord stream: implementation vs spec (set-theoretic definitions, root paths) and vs the mirrored model.",
     },
     "C05": {
-        "modules": ["RsddModel.Props.C05Bdd", "RsddModel.Props.C03"],
+        "modules": ["RsddModel.Props.C05Bdd", "RsddModel.Props.C05Sdd", "RsddModel.Props.C03"],
         "streams": [COMP_STREAM],
         "rule": "CNFs (empty formula, empty/unit clauses, repeated and complementary literals, unused indices), random partial assignments over all "
                 "variables, random expression trees over all seven constructors (depth <= 4), dtree plans for random elimination orders; BDD builder "
